@@ -41,10 +41,10 @@ def run(chk, repo):
     from ..records import Layouts
     chk.rule("C01-R5", "metadata pass: chunk offsets advance by the bytes actually read, for every records_per_chunk (C06-Q5)", 4)
     chk.attempt(trace_rpc, chk, repo)
-    chk.attempt(metadata_offsets, chk, repo, Layouts(repo), covered_by="trace_rpc")
+    chk.attempt(metadata_offsets, chk, repo, Layouts(repo), covered_by="trace_rpc", rules=("C01-R5",))
     from .c01 import chunk_sizes_spec
     chk.rule("C01-R8", "metadata pass: the requests add up to the header's record count for every records_per_chunk (C06-Q6)", 2)
-    chk.attempt(chunk_sizes_spec, chk, repo, covered_by="trace_rpc")
+    chk.attempt(chunk_sizes_spec, chk, repo, covered_by="trace_rpc", rules=("C01-R8",))
     chk.count("functions", len(op.reach))
 
 
